@@ -1046,7 +1046,7 @@ def e2e_run(ctx, impl, funcs, tag):
                                       blist(shown[f["name"]][0]),
                                       blist(shown[f["name"]][1] if f["ractual"] is not None else b""))
             for f, pa, pr in items)
-        res = coq.run_cases(ctx, "e2e_" + tag, PRE, defs, [
+        res = coq.run_cases(ctx, "e2e_" + re.sub(r"\W", "_", tag), PRE, defs, [
             ("bad", "bad_indices (fun x => match x with (a, r, ta, tr) => ok_args a ta && ok_ret r tr end) items 0")])
         bad = set(coq.parse_nat_list(res["bad"])) if res else set()
         for i, (f, pa, pr) in enumerate(items):
@@ -1054,17 +1054,66 @@ def e2e_run(ctx, impl, funcs, tag):
     return out
 
 
+E2E_WITNESSES = [
+    ("autoargs-complex",
+     {"name": "g1", "types": ["double _Complex", "const char *", "signed char"], "rtype": "void",
+      "src": "__attribute__((noinline)) void g1(double _Complex z, const char *s, signed char c) { sink++; }\n",
+      "call": "  g1(1.0 + 2.0 * I, \"str4\", -70);\n",
+      "actual": [["txt", ["1.000000+2.000000i", "1.000000", "{...}"]], ["strv", "str4"], ["txt", int_cands(-70, 8)]],
+      "ractual": None},
+     "--auto-args takes a `double _Complex` parameter (passed in xmm0/xmm1) for an integer argument: it and every "
+     "parameter behind it are shown from the wrong registers (g1(1+2i, \"str4\", -70) shows %s)"),
+    ("autoargs-longdouble",
+     {"name": "g1", "types": ["long double", "int", "double"], "rtype": "void",
+      "src": "__attribute__((noinline)) void g1(long double a, int b, double c) { sink++; }\n",
+      "call": "  g1(3.25L, 2147483647, -239.625);\n",
+      "actual": [["txt", ["3.250000"]], ["txt", int_cands(2147483647, 32)], ["txt", ["-239.625000"]]],
+      "ractual": None},
+     "--auto-args counts a `long double` parameter (x87: passed in memory) as a user of an xmm register: every "
+     "float/double parameter behind it is read from the next register (g1(3.25L, 2147483647, -239.625) shows %s)"),
+]
+
+
 def e2e(ctx, impl):
-    """real `uftrace record -a` (specs from DWARF) + replay on compiled programs with known argument values"""
+    """real `uftrace record -a` (specs from DWARF) + replay on compiled programs with known argument values.
+    returns the (key, text, still_fails, replay) tuples of the dedicated witnesses"""
     g = E2EGen(ctx.rng)
+    found = []
+    still = {}
+    for key, w, text in E2E_WITNESSES:
+        w = json.loads(json.dumps(w))
+        res = e2e_run(ctx, impl, [w], key)
+        problem = res[0][1] if res else "not run"
+        ctx.case(key=("e2e", "witness", key), tags=["witness=" + key])
+        still[key] = problem is not None
+        found.append((key, text % (w.get("shown", ("?", ""))[0],), still[key],
+                      {"mode": "e2e-witness", "program": e2e_program([w]), "shown": w.get("shown"),
+                       "specs": w.get("specs"), "problem": problem}))
     fixed = [[E2E_TYPES[0], E2E_TYPES[10], E2E_TYPES[2], E2E_TYPES[9]],
              [E2E_TYPES[7], E2E_TYPES[4], E2E_TYPES[1], E2E_TYPES[8], E2E_TYPES[3], E2E_TYPES[0], E2E_TYPES[0], E2E_TYPES[10]],
              [E2E_TYPES[11], E2E_TYPES[12], E2E_TYPES[0], E2E_TYPES[10]],
              [E2E_TYPES[14], E2E_TYPES[10], E2E_TYPES[0]], [E2E_TYPES[15], E2E_TYPES[10], E2E_TYPES[0]],
              [E2E_TYPES[13], E2E_TYPES[10], E2E_TYPES[0]], [E2E_TYPES[10], E2E_TYPES[16], E2E_TYPES[17]]]
+
+    def in_known_class(types):
+        # a float/double behind a long double: listed defect autoargs-longdouble (until it stops reproducing)
+        if not still["autoargs-longdouble"]:
+            return False
+        seen = False
+        for t in types:
+            if t[0] == "long double":
+                seen = True
+            elif seen and t[1] == "flt":
+                return True
+        return False
     for rnd in range(ctx.n(1, 8)):
         funcs = [g.function(k + 1, t) for k, t in enumerate(fixed)] if rnd == 0 else []
-        funcs += [g.function(len(funcs) + k + 1) for k in range(ctx.n(10, 24))]
+        while len(funcs) < ctx.n(17, 24):
+            r = ctx.rng
+            types = [r.choice(E2E_TYPES) for _ in range(r.randrange(1, 8))]
+            if in_known_class(types):
+                continue
+            funcs.append(g.function(len(funcs) + 1, types))
         nbad = 0
         for f, problem in e2e_run(ctx, impl, funcs, "p%d" % rnd):
             if f is None:
@@ -1078,20 +1127,7 @@ def e2e(ctx, impl):
                                   % (f["name"], ", ".join(f["types"]), f["call"].strip(), problem),
                                   {"mode": "e2e", "program": e2e_program(funcs), "function": f["name"],
                                    "specs": f.get("specs"), "rspecs": f.get("rspecs"), "shown": f.get("shown")}, True)
-    # dedicated witness: a double _Complex parameter is taken for an integer, everything behind it is misplaced
-    w = {"name": "g1", "types": ["double _Complex", "const char *", "signed char"], "rtype": "void",
-         "src": "__attribute__((noinline)) void g1(double _Complex z, const char *s, signed char c) { sink++; }\n",
-         "call": "  g1(1.0 + 2.0 * I, \"str4\", -70);\n",
-         "actual": [["txt", ["1.000000+2.000000i", "1.000000", "{...}"]], ["strv", "str4"], ["txt", int_cands(-70, 8)]],
-         "ractual": None}
-    res = e2e_run(ctx, impl, [w], "complex")
-    problem = res[0][1] if res else "not run"
-    ctx.case(key=("e2e", "witness-complex"), tags=["witness=autoargs-complex"])
-    return ("autoargs-complex",
-            "--auto-args takes a `double _Complex` parameter (passed in xmm0/xmm1) for an integer argument: it and every "
-            "parameter behind it are shown from the wrong registers (g1(1+2i, \"str4\", -70) shows %s)"
-            % (w.get("shown", ("?", ""))[0]), problem is not None,
-            {"mode": "e2e-witness", "program": e2e_program([w]), "shown": w.get("shown"), "specs": w.get("specs")})
+    return found
 
 
 # ================================================================== entry points
@@ -1308,8 +1344,8 @@ def run(ctx):
     batches, res = run_cases_through(ctx, impl, cases, "cases")
     count_cases(ctx, [c for b in batches for c in b])
     verdict(ctx, batches, res)
-    w = e2e(ctx, impl)
-    defect_witnesses(ctx, impl, [w])
+    found = e2e(ctx, impl)
+    defect_witnesses(ctx, impl, found)
 
 
 def replay(ctx, obj):
